@@ -48,7 +48,7 @@ def run_tlc(workdir, module, cfg, workers=16, simulate=None, depth=None, timeout
     else:
         cfg_name = cfg
     meta = os.path.join(workdir, f"meta-{module}-{int(time.time()*1000) % 100000}")
-    cmd = ["java", "-XX:+UseParallelGC", f"-Xmx{heap}"]
+    cmd = ["java", "-XX:+UseParallelGC", f"-Xmx{heap}", "-Xss512m"]
     if dfs:
         cmd.append("-Dtlc2.tool.queue.IStateQueue=StateDeque")
     cmd += ["-cp", f"{JAR}:{DEPS}", "tlc2.TLC", "-workers", str(workers), "-metadir", meta,
